@@ -36,6 +36,14 @@ SPEC DECISIONS
      like any other, its reply is the separate response (Empty ACK first, then CON) that libcoap prescribes for proxying.
  D9  Non-request codes with a valid class (Empty, responses) are out of scope here (C07).
  D10 An invalid response code class (1.xx, 6.xx, 7.xx on UDP) set by the handler cannot be sent: no reply at all.
+ D11 Deferred responses (RFC 7252 §5.2.2).  A handler may defer its response (coap_register_async); from then on a
+     request of the SAME peer with the SAME token that passes the message-level checks is a retransmission of the
+     deferred one (RFC 7252 §5.3.1: a token identifies a request per endpoint pair; §4.5 duplicates): a Confirmable one
+     is acknowledged again with an Empty ACK, nothing else is sent and no handler runs.  Requests of other peers, or
+     with another token, are not affected by pending deferred requests.  The deferred response itself is out of scope.
+ D12 Deduplication (RFC 7252 §4.5) is only prescribed where libcoap does it: a Confirmable request that would be handed
+     to the proxy handler and repeats the message id of the same peer's previous such request is acknowledged again
+     (Empty ACK) and not processed again.  Elsewhere every datagram is processed on its own ("for each request datagram").
 -/
 namespace Coap.Server
 
@@ -261,6 +269,51 @@ inductive Pre where
   | go (isProxy : Bool) (os : Opts) (path : Bytes)
   deriving DecidableEq, Repr
 
+/-! ### several datagrams at one context — shared by M and S
+What a request can find of its predecessors (fresh context, UDP, block mode 0, nothing but requests received):
+deferred responses (`context->async_state`: session + token) and the message id of the last Confirmable request handed
+to the proxy handler (`session->last_con_mid`).  A peer (source address) is one libcoap session. -/
+structure Hist where
+  /-- (peer, token) of the requests whose response the application has deferred -/
+  pend : List (Nat × Bytes)
+  /-- (peer, message id) of Confirmable requests handed to the proxy handler, newest first -/
+  lastCon : List (Nat × Nat)
+  deriving DecidableEq, Repr
+
+def Hist.empty : Hist := ⟨[], []⟩
+
+/-- one datagram: who sent it, whether the handler (if one runs) defers its response (then `rq.verdict` is ⟨0, []⟩:
+it sets nothing now), the request -/
+structure Ev where
+  peer : Nat
+  defer : Bool
+  rq : Request
+  deriving DecidableEq, Repr
+
+def Hist.hit (h : Hist) (ev : Ev) : Bool := h.pend.contains (ev.peer, ev.rq.msg.token)
+def Hist.dup (h : Hist) (ev : Ev) : Bool := h.lastCon.lookup ev.peer == some ev.rq.msg.mid
+
+/-- session->last_con_mid = pdu->mid on the early-ACK path: exactly when the proxy handler got a Confirmable request -/
+def Hist.noteCon (h : Hist) (ev : Ev) (o : Outcome) : Hist :=
+  match o.call with
+  | some c => if c.who = .prx ∧ ev.rq.msg.type = CON then { h with lastCon := (ev.peer, ev.rq.msg.mid) :: h.lastCon } else h
+  | none => h
+
+/-- the history after a datagram whose outcome was `o` -/
+def Hist.after (h : Hist) (ev : Ev) (o : Outcome) : Hist :=
+  let h1 := h.noteCon ev o
+  -- the deferring handler called coap_register_async()
+  if ev.defer ∧ o.call.isSome then { h1 with pend := (ev.peer, ev.rq.msg.token) :: h1.pend } else h1
+
+/-- outcomes of a sequence of datagrams under the decision function `dec hit dup rq` -/
+def seqRun (dec : Bool → Bool → Request → Outcome) : Hist → List Ev → List Outcome
+  | _, [] => []
+  | h, ev :: r => let o := dec (h.hit ev) (h.dup ev) ev.rq; o :: seqRun dec (h.after ev o) r
+
+def seqFinal (dec : Bool → Bool → Request → Outcome) : Hist → List Ev → Hist
+  | h, [] => h
+  | h, ev :: r => seqFinal dec (h.after ev (dec (h.hit ev) (h.dup ev) ev.rq)) r
+
 end Coap.Server
 
 /-! ## S -/
@@ -272,6 +325,7 @@ open Coap.Server
 structure Esc where
   path : List (Nat × Nat)
   query : List (Nat × Nat)
+  deriving DecidableEq, Repr
 
 /-- RFC 3986 §3.3 pchar without pct-encoded: unreserved / sub-delims / ":" / "@" -/
 def pchar (c : Nat) : Bool :=
@@ -281,6 +335,30 @@ def pchar (c : Nat) : Bool :=
 def qchar (c : Nat) : Bool := pchar c || c == 47 || c == 63
 
 def Esc.legal (e : Esc) : Prop := ∀ c, c < 256 → (inIvs e.path c = true → pchar c = true) ∧ (inIvs e.query c = true → qchar c = true)
+
+/-- maximal runs of consecutive numbers of an increasing list, as inclusive intervals -/
+def runs : List Nat → List (Nat × Nat)
+  | [] => []
+  | x :: r =>
+    match runs r with
+    | (a, b) :: t => if x + 1 = a then (x, b) :: t else (x, x) :: (a, b) :: t
+    | [] => [(x, x)]
+
+/-- the part of an escape choice that RFC 3986 allows: whatever `e` leaves alone although it MUST be escaped is escaped.
+For a legal `e` this is `e` itself (in canonical interval form).  The executable S of the differential run uses the
+restriction of the implementation's choice, so an implementation that leaves an illegal byte (say 0x00) unescaped
+contradicts S on a concrete request. -/
+def Esc.restrict (e : Esc) : Esc :=
+  ⟨runs ((List.range 256).filter fun c => inIvs e.path c && pchar c),
+   runs ((List.range 256).filter fun c => inIvs e.query c && qchar c)⟩
+
+/-- coap_resource(3): the handlers the resource constructors register by themselves (bit m-1 = method m) —
+coap_resource_init: none; coap_resource_unknown_init[2]: "put_handler is automatically added to the resource to handle
+PUT requests"; coap_resource_proxy_uri_init[2]: "proxy_handler is automatically added to the resource to handle
+PUT/POST/GET etc. requests … There is no need to add explicit request type handlers" -/
+def docPresetRes : Nat := 0
+def docPresetUnk : Nat := 4   -- PUT = method 3
+def docPresetPrx : Nat := 127
 
 /-- RFC 7252 §5.10.1: the path is the Uri-Path values, percent-encoded, joined by "/" -/
 def uriPath (e : Esc) (os : Opts) : Bytes := joinWith 47 ((os.filter fun o => o.1 == 11).map fun o => pctEncode e.path o.2)
@@ -476,5 +554,52 @@ def serverSpec (e : Esc) (cfg : Cfg) (tbl : Table) (rq : Request) : Outcome :=
     if cfg.mts > 8 then ⟨true, [errReply m 128], none⟩
     else ⟨true, if rq.mcast ∧ m.type = NON then [] else [lib RST 0 m.mid []], none⟩
   else handle e cfg tbl rq ((m.opts.map (·.1)).any (tolerated cfg fwd))
+
+/-! ### a request that finds state left by earlier datagrams (D11, D12) -/
+/-- `dup`: the message id repeats that of the peer's previous Confirmable request handed to the proxy handler -/
+def runA (e : Esc) (dup : Bool) (cfg : Cfg) (rq : Request) (os : Opts) (path : Bytes) (sel : Sel) : Outcome :=
+  if sel.isPrx ∧ rq.msg.type = CON ∧ dup then ⟨true, [lib ACK 0 rq.msg.mid []], none⟩      -- D12
+  else run e cfg rq os path sel
+
+def stagesA (e : Esc) (dup : Bool) (cfg : Cfg) (tbl : Table) (rq : Request) (tol : Bool) : Outcome :=
+  let m := rq.msg
+  match pre e tbl rq tol (clearBlock2M m.opts) with
+  | .fail code fl => ⟨true, deliver cfg rq fl false (errReply m code), none⟩
+  | .ignore => Outcome.nothing
+  | .go isProxy os path =>
+    match select tbl m.code isProxy path with
+    | .inl code => ⟨true, deliver cfg rq none false (errReply m code), none⟩
+    | .inr sel =>
+      match precond cfg rq os sel with
+      | some code => ⟨true, deliver cfg rq (some sel.flags) false (errReply m code), none⟩
+      | none => runA e dup cfg rq os path sel
+
+/-- `hit`: the response to a request of this peer with this token has been deferred and is still pending -/
+def handleA (e : Esc) (hit dup : Bool) (cfg : Cfg) (tbl : Table) (rq : Request) (tol : Bool) : Outcome :=
+  if rq.mcast ∧ rq.msg.type ≠ NON then Outcome.nothing       -- D5
+  else if hit then ⟨true, if rq.msg.type = CON then [lib ACK 0 rq.msg.mid []] else [], none⟩   -- D11
+  else stagesA e dup cfg tbl rq tol
+
+def serverSpecA (e : Esc) (hit dup : Bool) (cfg : Cfg) (tbl : Table) (rq : Request) : Outcome :=
+  let m := rq.msg
+  if ¬ validCode m.code then ⟨true, if m.type = CON then [lib RST 0 m.mid []] else [], none⟩
+  else if ¬ isRequestCode m.code then Outcome.outOfScope
+  else if rq.verdict.code = 168 then Outcome.outOfScope
+  else
+  let fwd : Bool := tbl.prx.isSome && (hasOpt m.opts 35 || hasOpt m.opts 39)
+  if badOption cfg fwd m.opts then
+    if m.type = NON then ⟨true, if rq.mcast then [] else [lib RST 0 m.mid []], none⟩
+    else if m.type = CON then ⟨true, [errReply m 130], none⟩
+    else Outcome.nothing
+  else if hasOpt m.opts 9 then Outcome.outOfScope
+  else if m.type = ACK ∨ m.type = RST then Outcome.nothing
+  else if m.token.length > cfg.mts then
+    if cfg.mts > 8 then ⟨true, [errReply m 128], none⟩
+    else ⟨true, if rq.mcast ∧ m.type = NON then [] else [lib RST 0 m.mid []], none⟩
+  else handleA e hit dup cfg tbl rq ((m.opts.map (·.1)).any (tolerated cfg fwd))
+
+/-- S for a sequence of datagrams received by one server, starting from history `h` -/
+def seqSpec (e : Esc) (cfg : Cfg) (tbl : Table) : Hist → List Ev → List Outcome :=
+  seqRun (fun hit dup rq => serverSpecA e hit dup cfg tbl rq)
 
 end Coap.Server.S
